@@ -2,7 +2,8 @@
 Lean: Graph/Clone.lean models CloneChildren (recursive clone of the child tree into the destination header, reference
 re-assignment); Props/C14.lean proves that the destination's previous blocks are untouched, that every child reference below the
 clone resolves inside the destination to a block carrying the source child's content, and that the source is not modified.
-D: oracle under ASan/UBSan — every shape of every sample file and API-built (skinned) meshes cloned into the same model, a fresh
+D: correspondence — CloneChildren on the clone of every block of every sample file against the Lean model on the same graph, compared
+   as trees below the clone; oracle under ASan/UBSan — every shape of every sample file and API-built (skinned) meshes cloned into the same model, a fresh
    model of the same version, the same file loaded a second time, another model; twice in a row; the clone is compared with the
    source shape (geometry, skin, partitions, segments, shader, textures, bone list by name), its block tree is walked in parallel
    with the source's, the source is compared before/after (bytes + battery), the destination is saved and reloaded."""
@@ -14,7 +15,9 @@ from vlib import common as C
 
 LEAN_MODULES = ["NiflyVerif.Props.C14"]
 ASSUMPTIONS = ["the bone-node part of CloneShape (CloneNamedNode, re-parenting of existing nodes, rebuild of the bone list by name) is "
-               "judged by the oracle only; the Lean model covers CloneChildren"]
+               "judged by the oracle only; the Lean model covers CloneChildren",
+               "the correspondence compares the cloned trees up to the order in which sibling references are numbered (address order of a "
+               "std::set<NiRef*> in the library); sources with dangling child references are skipped and counted"]
 
 
 def group(f):
@@ -32,6 +35,29 @@ def group(f):
     if user == 11:
         return "fo3"
     return {83: "sk", 100: "sse", 130: "fo4", 132: "fo4_132", 139: "fo4_139", 155: "fo76"}.get(stream, "sf" if stream >= 170 else f"v{stream}")
+
+
+def clone_canon(n0, rows, back):
+    """the blocks from index n0 on as a tree below block n0: type(sorted kids | sorted pointers); new blocks by shape, not by number;
+    a pointer to an ancestor inside the clone by its depth"""
+    blks = []
+    for r in rows.split("|"):
+        t, k, p = r.split(";")
+        ref = lambda s_: [] if s_ in ("-", "") else [int(x) for x in s_.split(",")]
+        blks.append((back[int(t)] if back else t, ref(k), ref(p)))
+    used = [0]
+
+    def go(i, path):
+        used[0] += 1
+        if len(path) > 200:
+            return "deep"
+        t, ks, ps = blks[i - n0]
+        path = path + [i]
+        kk = sorted(go(k, path) if n0 < k < n0 + len(blks) and k not in path else f"r{k}" for k in ks)
+        pp = sorted(f"anc{path.index(p)}" if p in path else (f"new{p - n0}" if n0 <= p < n0 + len(blks) else f"p{p}") for p in ps)
+        return f"{t}({','.join(kk)}|{','.join(pp)})"
+    c = go(n0, [])
+    return f"{len(blks)}/{used[0]}:{c}"
 
 
 def run(ctx):
@@ -91,6 +117,50 @@ def run(ctx):
             why.append("destination save/reload: " + o.split("reload=")[1][:200])
         if why:
             bad.append((label, line, "; ".join(why[:3])))
+    # correspondence: Graph/Clone.lean `cloneChildren` against NifFile::CloneChildren, every block of every sample file (and of
+    # API-built skinned meshes) as the clone root; the two results are compared as trees below the clone (the implementation walks
+    # a block's references in address order of a std::set, which only decides the numbering)
+    corr, ncorr, cl, skipped_dangling, rebound, deep = [], 0, [], 0, 0, 0
+    if not ctx.replay and ctx.driver:
+        srcs = [f"load:{f}" for f in filecamp.sample_files()]
+        srcs += [f"mesh:{v}:30:40:{rng.randrange(1, 10**6)}:n:{nb}" for v in ("ob", "fo3", "sse", "fo4", "fo76") for nb in (0, 5)]
+        nbs = C.run_lines_parallel(ctx.harness, [f"c14.nblocks {x}" for x in srcs])
+        for x, nb in zip(srcs, nbs):
+            if not nb.isdigit():
+                continue
+            idx = list(range(int(nb)))
+            if ctx.tier == "quick" and len(idx) > 25:
+                idx = sorted(rng.sample(idx, 25))
+            cl += [f"c14.kids {x} {i}" for i in idx]
+        impl = C.run_lines_parallel(ctx.harness, cl, timeout=3000)
+        ml, mi = [], []
+        for i, o in enumerate(impl):
+            if not o.startswith("n0="):
+                bad.append(("clone-children", cl[i], "CloneChildren on the clone of one block crashed or failed: " + o[:200]))
+                continue
+            kv = dict(x.split("=", 1) for x in o.split(" "))
+            if kv["prev"] != "same":
+                bad.append(("clone-children", cl[i], "CloneChildren changed a block the destination held before"))
+            names = {}
+            rows = [r.split(";") for r in kv["src"].split("|")]
+            if any(k not in ("-", "") and int(k) >= len(rows) for r in rows for k in r[1].split(",")):
+                skipped_dangling += 1
+                continue
+            enc = "|".join(f"{names.setdefault(r[0], len(names) + 1)};{r[1]};{r[2]}" for r in rows)
+            ml.append(f"c14.clone {kv['n0']} {kv['root']} {enc}")
+            mi.append((i, int(kv["n0"]), kv["dest"], {v: k for k, v in names.items()}))
+        model = C.run_lines_parallel(ctx.driver, ml)
+        for (i, n0, dest, back), m in zip(mi, model):
+            ncorr += 1
+            a = clone_canon(n0, dest, None)
+            rebound += "anc" in a
+            deep += a.count("(") > 2
+            b = clone_canon(n0, m, back) if "bad-op" not in m else "bad-op"
+            if a != b:
+                corr.append((cl[i], a, b))
+        for j, (l, a, b) in enumerate(corr[:2]):
+            res.violation(f"correspondence-{j}", dict(what=f"CloneChildren leaves [{a[:300]}], the model cloneChildren [{b[:300]}]", line=l,
+                                                       broken="correspondence Graph/Clone.lean cloneChildren vs NifFile::CloneChildren"), no_input=True)
     ctx.allbad = bad
     for j, (label, line, why) in enumerate(sorted(bad, key=lambda b: len(b[1]))[:3]):
         res.violation(f"oracle-{j}", dict(what=why, label=label, line=line))
@@ -100,5 +170,7 @@ def run(ctx):
              "colours) × destination {same model, fresh model, same file loaded again, another sample of the same game, API-built skinned "
              "mesh} × 1..3 consecutive clones; per clone: full shape observation, shader/textures, bone list, parallel block-tree walk, "
              "cached geometry pointer; source bytes+battery before/after; destination save+reload",
-        source_shape_types=kinds, oracle_failures=len(bad),
+        source_shape_types=kinds, oracle_failures=len(bad), clone_children_cases=ncorr, clone_children_mismatches=len(corr),
+        clone_children_skipped_dangling=skipped_dangling, clone_children_with_rebound_pointer=rebound,
+        clone_children_with_grandchildren=deep,
         samples=[f"{l} -> {o[:160]}" for l, o in list(zip(lines, out))[:: max(1, len(lines) // 5)]][:5])
